@@ -588,16 +588,22 @@ impl Property for ProofProp {
         // the incremental time-table propagators report conflicts late, which exercises the completion of the
         // proof away from the root level
         let mut pp_cum = p.clone();
-        pp_cum.kinds = vec![(K::Cumulative, 10), (K::BinLe, 3), (K::BinNe, 1), (K::LinLe, 2)];
+        pp_cum.kinds = vec![(K::Cumulative, 10), (K::BinLe, 2), (K::BinLt, 1), (K::BinNe, 2), (K::LinLe, 1)];
+        pp_cum.min_cons = 1;
+        pp_cum.max_cons = 3;
+        pp_cum.max_vars = 8;
         pp_cum.max_tasks = 6;
         pp_cum.max_dur = 5;
         pp_cum.small_dom_permille = 550;
         pp_cum.max_dom = 7;
+        pp_cum.lb_span = 3;
+        pp_cum.mode_permille = 0;
         pp_cum.plant_permille = 100;
         pp_cum.pred_literals = false;
-        (raw_model_strategy(&p), raw_config_strategy(), any::<u8>(), 0u8..3, (any::<u16>(), -3i8..=3, -3i8..=3), any::<bool>())
-            .prop_map(move |((rv, rc), rcfg, path, proof_type, obj, maximise)| {
-                let mut model = if path % 6 == 5 { build_model(&pp_cum, &rv, &rc) } else { build_model(&pp, &rv, &rc) };
+        let pc = pp_cum.clone();
+        (raw_model_strategy(&p), raw_model_strategy(&pp_cum), raw_config_strategy(), any::<u8>(), 0u8..3, (any::<u16>(), -3i8..=3, -3i8..=3), any::<bool>())
+            .prop_map(move |((rv, rc), (cv, cc), rcfg, path, proof_type, obj, maximise)| {
+                let mut model = if path % 6 == 5 { build_model(&pc, &cv, &cc) } else { build_model(&pp, &rv, &rc) };
                 for c in model.cons.iter_mut() {
                     c.tag = true;
                 }
